@@ -1,14 +1,178 @@
 (* C19 — gencommon: the interface rendered from FindInterface compiles and fits.
-   (under construction: the property theorems are added as IFace*Proofs.v grow)             *)
+   Property theorems only; every proof is `exact <lemma of IFace*Proofs>`.
+   The model (IFaceModel.v) mirrors gencommon/{params,method,imports,interface}.go of the
+   current tree (= pinned tree + fixes/C19-param-names.patch + fixes/C19-embedded-ambiguous.patch);
+   it is tied to the code by the farm of ./check C19.  What no Gallina model exhibits —
+   acceptance of the rendered text by the Go compiler — is observed there (partial).        *)
 From Coq Require Import List Bool String NArith.
-From GT Require Import IFaceModel.
+From GT Require Import IFaceModel IFaceNamesProofs IFaceEmbProofs IFaceRefProofs.
 Import ListNotations.
 Local Open Scope string_scope.
 
-(* the pinned code (before fixes/C19-param-names.patch): `M(arg0 int, _ string)` *)
-Theorem C19_names_orig_refuted :
-  exists ins outs, ~ NoDup (final_names_orig ins outs).
+(* ================================================================== parameter names *)
+(* Every pair of parameter lists (any length; unnamed, `_`, user-chosen names, also names equal
+   to the generator's own arg0/ret0/ctx/err/ctx0 and even repeated user names; any placement of
+   context/error-typed parameters): the final names of inputs and outputs together are pairwise
+   distinct, are valid Go identifiers as soon as the user's own names are, and a user name stays
+   as written unless it equals a name already given to an earlier user-named parameter. *)
+Theorem C19_names : forall ins outs,
+  let names := final_names ins outs in
+  List.length names = List.length (ins ++ outs) /\
+  NoDup names /\
+  (Forall user_valid (ins ++ outs) -> Forall valid_ident names) /\
+  kept [] (map user_name (ins ++ outs)) names.
+Proof. exact final_names_all. Qed.
+
+(* For a signature Go accepts (user names pairwise distinct) every user name is kept. *)
+Theorem C19_names_user_names_kept : forall ins outs,
+  NoDup (somes (map user_name (ins ++ outs))) ->
+  Forall2 (fun u f => forall x, u = Some x -> f = x) (map user_name (ins ++ outs)) (final_names ins outs).
+Proof. exact final_names_all_kept. Qed.
+
+(* The executable specification with which the correspondence run judges the names observed on
+   the real code holds of the model. *)
+Theorem C19_names_judged_spec : forall ins outs,
+  Forall user_valid (ins ++ outs) -> NoDup (somes (map user_name (ins ++ outs))) ->
+  names_okb (ins ++ outs) (final_names ins outs) = true.
+Proof. exact final_names_okb. Qed.
+
+(* The numbering loop of getSafeParamName (unbounded in Go, run with fuel in the model) always
+   ends on a name that is not taken. *)
+Theorem C19_names_numbering_terminates : forall d name v,
+  dmem d (fst (number_name (S (List.length d)) d name v)) = false.
+Proof. exact number_name_fresh. Qed.
+
+(* The pinned code: M(arg0 int, _ string) is rendered M(arg0 int, arg0 string). *)
+Theorem C19_names_orig_refuted : exists ins outs, ~ NoDup (final_names_orig ins outs).
+Proof. exact names_orig_refuted. Qed.
+
+(* ================================================================== method collection *)
+(* Every embedding tree (any depth, any overlap): the collected names are the type's own visible
+   methods plus, with IncludeEmbedded, the names Go promotes (go_ms: declared exactly once at the
+   shallowest depth) that the type does not define itself and that exactly one embedded field's
+   interface provides. *)
+Theorem C19_embedded : forall priv emb t n, wf_tree t ->
+  (In n (iface_names priv emb t) <->
+   In n (vis_names priv t) \/
+   (emb = true /\ ~ In n (vis_names priv t) /\ go_ms t n = true /\
+    exactly_one_field priv emb n (t_emb t))).
+Proof. exact iface_names_spec. Qed.
+
+(* Embedding at most two levels deep (the property's quantifier): exactly the specification in
+   the property's words — own visible methods, plus the visible promoted ones whose names are
+   defined neither by the type itself nor under more than one embedded field. *)
+Theorem C19_embedded_two_levels : forall priv emb t n, height t <= 2 -> wf_tree t ->
+  (In n (iface_names priv emb t) <-> spec_methodb priv emb t n = true).
+Proof. exact iface_two_levels. Qed.
+
+(* At any depth every collected method is in the method set of the type: as far as the method
+   set goes, the rendered interface is implemented by the original type. *)
+Theorem C19_embedded_fits : forall priv emb t n, wf_tree t ->
+  In n (iface_names priv emb t) -> go_ms t n = true.
+Proof. exact iface_names_fit. Qed.
+
+(* IncludePrivate adds exactly the unexported ones. *)
+Theorem C19_private : forall emb t n, wf_tree t ->
+  (In n (iface_names false emb t) <-> In n (iface_names true emb t) /\ exported n = true).
+Proof. exact iface_names_private. Qed.
+
+(* The pinned code: type S struct{ F; G }, F struct{ X }, G struct{ Y; Z }, X Y Z each with Foo —
+   Foo is collected although S.Foo is ambiguous in Go; the current code does not collect it. *)
+Theorem C19_embedded_orig_refuted :
+  exists t n, wf_tree t /\ height t <= 2 /\
+              In n (iface_names_orig false true t) /\ go_ms t n = false /\
+              spec_methodb false true t n = false /\ ~ In n (iface_names false true t).
+Proof. exact iface_orig_refuted. Qed.
+
+(* ================================================================== type references, imports *)
+(* Every type AST, every state of the import table: in every later state of the handler whose
+   active imports carry pairwise distinct aliases the rendered reference denotes the original
+   type (parameter names of func types erased) ... *)
+Theorem C19_typeref : forall e local t st x st',
+  extract e st t = (x, st') ->
+  forall st'', extends st' st'' ->
+  wf_ty (e_self e) local t -> alias_injective (active st'') ->
+  denote (e_self e) local (active st'') x = Some (erase t).
+Proof. exact typeref_denotes. Qed.
+
+(* ... and every qualifier it uses is the alias of an active import. *)
+Theorem C19_imports : forall e (local : string -> bool) t st x st',
+  extract e st t = (x, st') ->
+  forall st'', extends st' st'' ->
+  forall a, In a (qualifiers x) -> has_alias (active st'') a.
+Proof. exact typeref_imports. Qed.
+
+(* The whole pipeline (private filter, embedded merge, rendering with one shared ImportHandler):
+   each method of the result is the rendering of a method declared in the tree, its name list is
+   the collected name set above, every qualifier of its signature is an alias of an import that
+   is active when FindInterface returns, and under those imports its signature denotes the
+   declared signature. *)
+Theorem C19_interface : forall e local priv emb st t rs st',
+  to_iface e priv emb st t = (rs, st') ->
+  map rm_name rs = iface_names priv emb t /\
+  Forall (fun m => exists m0, In m0 (all_meths t) /\ rm_name m = m_name m0 /\
+            (forall a, In a (qualifiers (rmeth_expr m)) -> has_alias (active st') a) /\
+            (wf_ty (e_self e) local (meth_ty m0) -> alias_injective (active st') ->
+             denote (e_self e) local (active st') (rmeth_expr m) = Some (erase (meth_ty m0)))) rs.
+Proof. exact interface_ok. Qed.
+
+(* ================================================================== non-vacuity *)
+Example C19_example_names :
+  final_names [PI "arg0" false false; PI "_" false false] [] = ["arg0"; "arg1"] /\
+  final_names [PI "_" false false] [PI "arg0" false false] = ["arg1"; "arg0"] /\
+  final_names [PI "_" true false; PI "ctx" false false; PI "ctx0" false false]
+              [PI "err" false false; PI "" false true] = ["ctx1"; "ctx"; "ctx0"; "err"; "err0"] /\
+  Forall user_valid [PI "arg0" false false; PI "_" false false; PI "π" false false].
 Proof.
-  exists [PI "arg0" false false; PI "_" false false], [].
-  vm_compute. intro H. inversion H as [|x l Hin _]; subst. apply Hin. left. reflexivity.
+  split; [vm_compute; reflexivity|]. split; [vm_compute; reflexivity|]. split; [vm_compute; reflexivity|].
+  constructor; [right; vm_compute; reflexivity|].
+  constructor; [left; vm_compute; reflexivity|].
+  constructor; [right; vm_compute; reflexivity|constructor].
 Qed.
+
+Example C19_example_embedded :
+  wf_tree tree_S1 /\ height tree_S1 = 2 /\
+  iface_names true true tree_S1 = ["Own"] /\ iface_names_orig true true tree_S1 = ["Own"; "Foo"].
+Proof. split; [exact tree_S1_wf|]. vm_compute. auto. Qed.
+
+Definition ex_env := Env "ex.com/p" [("ex.com/sib/v2", "realname"); ("context", "context")].
+Definition ex_table := calc_imports ex_env [("context", None); ("ex.com/sib/v2", None); ("ex.com/sib/ren", Some "rr")].
+Definition ex_ty :=
+  TFunc [(PI "a" false false, TNamed (Some ("ex.com/sib/v2", "realname")) "T" []);
+         (PI "" false false, TSlice (TNamed (Some ("ex.com/sib/ren", "ren")) "R" []))] true
+        [(PI "" false false, TMap (TBasic "string")
+            (TPtr (TNamed (Some ("ex.com/third", "third")) "G"
+                     [TNamed None "error" []; TNamed (Some ("ex.com/p", "p")) "L" []])));
+         (PI "" false false, TNamed None "error" [])].
+Example C19_example_typeref :
+  let '(x, st) := extract ex_env ex_table ex_ty in
+  print x = "func(a realname.T, arg0... rr.R) (map[string]*third.G[error, L], error)" /\
+  map import_string (active st) = ["""ex.com/sib/v2"""; "rr ""ex.com/sib/ren"""; """ex.com/third"""] /\
+  alias_injective (active st) /\
+  denote "ex.com/p" (fun n => String.eqb n "L") (active st) x = Some (erase ex_ty).
+Proof.
+  vm_compute. repeat split; auto. repeat constructor; simpl; intuition discriminate.
+Qed.
+
+Example C19_example_wf_ty : wf_ty "ex.com/p" (fun n => String.eqb n "L") ex_ty.
+Proof.
+  unfold ex_ty. constructor.
+  - repeat constructor; simpl; intros; discriminate.
+  - repeat constructor; simpl; intros; try discriminate; reflexivity.
+  - intros _. exists [(PI "a" false false, TNamed (Some ("ex.com/sib/v2", "realname")) "T" [])],
+                     (PI "" false false), (TNamed (Some ("ex.com/sib/ren", "ren")) "R" []). reflexivity.
+Qed.
+
+Print Assumptions C19_names.
+Print Assumptions C19_names_user_names_kept.
+Print Assumptions C19_names_judged_spec.
+Print Assumptions C19_names_numbering_terminates.
+Print Assumptions C19_names_orig_refuted.
+Print Assumptions C19_embedded.
+Print Assumptions C19_embedded_two_levels.
+Print Assumptions C19_embedded_fits.
+Print Assumptions C19_private.
+Print Assumptions C19_embedded_orig_refuted.
+Print Assumptions C19_typeref.
+Print Assumptions C19_imports.
+Print Assumptions C19_interface.
